@@ -10,7 +10,8 @@ BIG = b"abcdefghijklmnopqrstuvwxyz0123456789" * 160      # 5760 bytes: needs an 
 
 def gen_history(rng, feats):
     h = G.History(cfg=rng.choice(["cache=10000", "cache=10000,page=8192", "cache=200"]))
-    tables, classes, checks = [], set(), []
+    tables, checks = [], []
+    classes = G.ClassSet(h)
     next_id, next_tid = [1], [1]
 
     def new_table():
@@ -99,7 +100,7 @@ def gen_history(rng, feats):
     after = observe()
     checks.append((before, after))
     rust, coq = h.render()
-    return Case(rust, coq, "history", {"classes": sorted(classes), "checks": checks})
+    return Case(rust, coq, "history", dict(classes.meta(), checks=checks))
 
 
 def gen_many_txns(rng, n):
@@ -136,7 +137,7 @@ def oracle(case, il):
             if a >= len(segs):
                 return "output truncated (open failed?): %s" % il[-200:]
             if segs[b] != segs[a]:
-                return "close/reopen changed a table: read %d gave %s, read %d gave %s" % (b, segs[b][:200], a, segs[a][:200])
+                return ("close/reopen changed a table: read %d gave %s, read %d gave %s" % (b, segs[b][:200], a, segs[a][:200]), a)
     return None
 
 
